@@ -253,7 +253,7 @@ OnProbe(st, e) ==
   ELSE LET c == Cand(st) IN
        IF Bad(~e.mc \/ Len(e.qs) # 1 \/ Len(e.ns) # 1 \/ e.an # <<>> \/ e.ar # <<>> \/ e.tc, "C09_ProbeShape") THEN Fail(st, "C09_ProbeShape")
        ELSE IF Bad(Len(e.qs) = 1 /\ Len(e.ns) = 1 /\
-                   (e.qs[1] # <<c.type, TPTR, 1, 1>> \/ e.ns[1][1] # c.ptr \/ e.ns[1][2] # c.ottl), "C09_ProbeShape") THEN Fail(st, "C09_ProbeShape")
+                   (e.qs[1] # <<c.type, TPTR, 1, 1, 0>> \/ e.ns[1][1] # c.ptr \/ e.ns[1][2] # c.ottl), "C09_ProbeShape") THEN Fail(st, "C09_ProbeShape")
        ELSE [st EXCEPT !.pr.i = @ + 1]
 
 ProbeOverdue(st, t) == st.pr.on /\ ~st.pr.fail /\ (IF st.pr.i < 3 THEN t > st.pr.r + 175 * st.pr.i ELSE t > st.pr.r + 350)
@@ -432,6 +432,9 @@ ContentClause(st, e, ans, opt) ==
      ELSE ""
 
 QKey(qs) == [k \in 1..Len(qs) |-> <<qs[k][1], qs[k][2], qs[k][4]>>]     \* the QU bit is not echoed (unicast reply)
+\* a question whose name cannot be written back (a label that is not UTF-8 and outgrows 63 octets when decoded with replacement
+\* characters; the recorder marks it in the fifth field): the reply then echoes all questions or, failing that, none
+NoEcho(qs) == \E k \in 1..Len(qs) : qs[k][5] = 1
 OnUnicast(st, e) ==
   LET x == st.exp IN
   \* the well-formed query sent after a fuzz stream must get its complete unicast answer
@@ -441,7 +444,7 @@ OnUnicast(st, e) ==
   ELSE IF ~x.on THEN st
   ELSE IF Bad(e.dst # x.dst \/ e.port # x.port \/ e.t # x.t, "C11_UnicastReply") THEN Fail(st, "C11_UnicastReply")
   ELSE IF Bad(e.sock # x.sock, "C11_SameSocket") THEN Fail(st, "C11_SameSocket")
-  ELSE IF Bad(e.id # x.id \/ e.flags # 33792 \/ (x.legacy /\ QKey(e.qs) # QKey(x.qs)) \/ (~x.legacy /\ e.qs # <<>>), "C11_UnicastEcho")
+  ELSE IF Bad(e.id # x.id \/ e.flags # 33792 \/ (x.legacy /\ QKey(e.qs) # QKey(x.qs) /\ ~(NoEcho(x.qs) /\ e.qs = <<>>)) \/ (~x.legacy /\ e.qs # <<>>), "C11_UnicastEcho")
        THEN Fail(st, "C11_UnicastEcho")
   ELSE IF Bad(\E k \in 1..Len(e.an) : e.an[k][3] = 1, "C11_NoFlushInUnicast") THEN Fail(st, "C11_NoFlushInUnicast")
   ELSE IF Bad(\E k \in 1..Len(e.ar) : e.ar[k][3] = 1, "C11_NoFlushInUnicast") THEN Fail(st, "C11_NoFlushInUnicast")
